@@ -8,6 +8,7 @@ CONSTANTS
   MaxRepl = 3
   MaxWrites = 3
   NoSkew = FALSE
+  ArmQuota = 0
   EnableRename = FALSE
 INIT Init
 NEXT Next
